@@ -1,9 +1,26 @@
 """C06 — rolling back the latest change restores exactly the previous state (DESIGN.md section 6, C06)."""
-from props import proto
+import driver
+from props import proto, c04
 
 
 def run(ctx):
     quick = ctx.tier == 'quick'
+    # (a) data path: histories of Sets, then the last change is rolled back through the real proposal phases
+    H = driver.Harness
+    f = dict(c04.NB); f.update(c04.V2C)
+    f['pkg/northbound/gnmi/v2/zz_verif_c03.go'] = 'c03/zz_verif_c03.go'
+    f['pkg/northbound/gnmi/v2/zz_verif_c04.go'] = 'c04/zz_verif_c04.go'
+    f['pkg/northbound/gnmi/v2/zz_verif_c06.go'] = 'c06/zz_verif_c06.go'
+    cuts = {c04.BUILDER_GET: 'atomix-map-by-name', c04.PROTO_CODEC: 'noop'}
+    hs = [H('VerifC06History', 'pkg/northbound/gnmi/v2', f, unwind=16, opts={'params': {'sets': n, 'again': 1}, 'cuts': cuts, 'maporder': mo},
+            timeout_ms=300000 if quick else 1800000, replay_attempts=16)
+          for n, mo in ([(1, 0), (1, 1), (2, 0)] if quick else [(1, 0), (1, 1), (2, 0), (2, 1), (3, 0)])]
+    if ctx.only:
+        hs = [h for h in hs if h.entry in ctx.only]
+    driver.check_harnesses(ctx, hs)
+    if ctx.only:
+        driver.write_evidence(ctx, 'model_checking', 'partial run', {}, [])
+        return
     d = 30 if quick else 42
     cfg = dict(nt=1, nx=2, sync=False, rollback=True, faults=False, crash=False)
     bad = ['bad:c06-rolled-back-leaf-still-readable', 'bad:c06-inadmissible-rollback-accepted', 'bad:c06-rolled-back-leaf-still-on-device']
